@@ -22,6 +22,7 @@ func init() {
 			"H2 in formatArgs every argv element, the command and every environment value reach the result only through appendShellSafeQuote; in jobScript STDOUT/STDERR/JOB_WORKDIR are shellSafeQuote results and CMD is the formatArgs result; the substitution is a single pass (no replacement call scans the result of an earlier replacement), " +
 			"H3 in every jobmanagers/*.template* the __MRO_CMD__ placeholder stands in command position, outside quotes and outside # directives. " +
 			"H2 also: text derived from a substitution result (through Split/Join/Trim, elements, local cells) is never searched with a non-constant or placeholder needle. " +
+			"H1 also: the escape set equals the POSIX set (an extra escaped byte keeps its backslash inside double quotes). " +
 			"NOT decided: invalid UTF-8 bytes (written as \\ooo, a documented extension), JOB_NAME/RESOURCES, each cluster's directive parser.",
 		Assumptions: append([]string{"POSIX XCU 2.2.3: inside double quotes exactly $, `, \" and \\ (and newline after \\) keep a special meaning"}, commonAssumptions...),
 	}
@@ -84,6 +85,16 @@ func runC18(c *an.Ctx) {
 	for _, need := range []rune{'$', '`', '"', '\\'} {
 		c.Check("H1", fmt.Sprintf("escapes(%q)@appendShellSafeQuote", need), quote.Pos(), escaped[need],
 			fmt.Sprintf("inside double quotes POSIX sh interprets %q; the quoting function must emit a backslash before it (escaped set: %s)", need, strings.Join(es, " ")))
+	}
+	// ... and nothing else: inside double quotes sh removes a backslash ONLY before $ ` " \ and newline; before
+	// any other character the backslash stays, so escaping it changes the value the job receives
+	for r := range escaped {
+		switch r {
+		case '$', '`', '"', '\\':
+			continue
+		}
+		c.Fail("H1", fmt.Sprintf("escapes-only-what-the-shell-unescapes(%q)@appendShellSafeQuote", r), quote.Pos(),
+			fmt.Sprintf("the quoting function writes a backslash before %q, which POSIX sh does not treat as special inside double quotes: the backslash is kept and the job receives the value with an extra `\\`", r))
 	}
 	// opens and closes with a double quote
 	entryQuote := blockAppendsByte(quote.Blocks[0], '"')
